@@ -812,6 +812,9 @@ dispatch_io_barrier(dispatch_io_t channel, dispatch_block_t barrier)
 		dispatch_queue_t io_q = channel->do_targetq;
 		dispatch_queue_t barrier_queue = channel->barrier_queue;
 		dispatch_group_t barrier_group = channel->barrier_group;
+		// The channel can be given another target queue before the block
+		// below runs and then drops its reference to this one
+		_dispatch_retain(io_q);
 		dispatch_async(barrier_queue, ^{
 			dispatch_suspend(barrier_queue);
 			dispatch_group_notify(barrier_group, io_q, ^{
@@ -827,6 +830,7 @@ dispatch_io_barrier(dispatch_io_t channel, dispatch_block_t barrier)
 				dispatch_resume(barrier_queue);
 				_dispatch_release(channel);
 			});
+			_dispatch_release(io_q);
 		});
 	});
 }
